@@ -95,6 +95,7 @@ func cmdRun(args []string) {
 	mapOrder := fs.Int("maporder", 0, "map order mode")
 	verbose := fs.Bool("v", false, "verbose")
 	cpuprof := fs.String("cpuprofile", "", "write cpu profile")
+	memprof := fs.String("memprofile", "", "write heap profile after 40 s")
 	var params multiFlag
 	fs.Var(&params, "param", "name=value (int if numeric)")
 	fs.Parse(args)
@@ -107,6 +108,17 @@ func cmdRun(args []string) {
 		defer pprof.StopCPUProfile()
 	}
 	fmt.Printf("loaded in %.1fs\n", time.Since(t0).Seconds())
+	if *memprof != "" {
+		go func() {
+			time.Sleep(40 * time.Second)
+			var ms runtime.MemStats
+			runtime.ReadMemStats(&ms)
+			fmt.Printf("go heap: alloc=%dMB sys=%dMB\n", ms.HeapAlloc>>20, ms.Sys>>20)
+			f, _ := os.Create(*memprof)
+			pprof.WriteHeapProfile(f)
+			f.Close()
+		}()
+	}
 	g := groups[*grp]
 	u := &interp.Unit{Name: *entry, Harness: g.Name, PkgPath: g.PkgPath, Entry: *entry, Params: parseParams(params), MaxPaths: *maxPaths, Samples: *samples, MapOrder: *mapOrder}
 	res, st := interp.RunUnits(p, []*interp.Unit{u}, interp.Options{Workers: *workers, Solver: *solver, TimeoutMs: 20000, MaxFail: 3})
